@@ -758,6 +758,10 @@ static URI_INLINE int URI_FUNC(NormalizeSyntaxEngine)(URI_TYPE(Uri) * uri,
 			return URI_ERROR_MALLOC;
 		}
 		URI_FUNC(FixEmptyTrailSegment)(uri, memory);
+		if (!URI_FUNC(FixPathAfterDotRemoval)(uri, relative, memory)) {
+			URI_FUNC(PreventLeakage)(uri, doneMask, memory);
+			return URI_ERROR_MALLOC;
+		}
 	}
 
 	/* Query, fragment */
